@@ -263,6 +263,27 @@ fn run(ctx: &Ctx, c: &Case) -> PResult {
                             }
                         }
                     }
+                    // and another share to range writes inside the array whose value has the element type but the wrong
+                    // number of elements (shorter, longer, empty)
+                    if *sel % 10 == 5 {
+                        if let Some(Variant::Array(cur)) = &model[k] {
+                            if cur.values.len() >= 2 {
+                                let a = *x as usize % (cur.values.len() - 1);
+                                let b = (a + 1 + (*y as usize % 4)).min(cur.values.len() + 2);
+                                range = Some(format!("{}:{}", a, b));
+                                let n = [0usize, 1, (b - a), (b - a) + 2][*seed as usize % 4];
+                                let elems: Vec<Variant> = (0..n)
+                                    .map(|j| match cur.value_type {
+                                        VariantTypeId::Int32 => Variant::Int32(*seed as i32 * 5 + j as i32),
+                                        VariantTypeId::Byte => Variant::Byte((*seed as u8).wrapping_mul(5).wrapping_add(j as u8)),
+                                        _ => Variant::from(make_string(seed.wrapping_add(j as u16), false)),
+                                    })
+                                    .collect();
+                                value = Variant::from((cur.value_type, elems));
+                                ctx.class("range_write_with_wrong_element_count");
+                            }
+                        }
+                    }
                     let kind = &(if let Variant::Array(a) = &value { match a.value_type { VariantTypeId::Int32 => 5u8, VariantTypeId::Byte => 7, VariantTypeId::String => 6, _ => *kind } } else { *kind });
                     let before = raw_value(&server, &id(k));
                     let h = conn.header(&token);
